@@ -10,7 +10,7 @@ let () =
   match Array.to_list Sys.argv with
   | [_; "--alphabet"] -> Common.print_alphabet ()
   | [_; "span"; file] -> Span_driver.main file
-  | [_; "parse"; file] ->
+  | [_; ("parse" | "render"); file] ->
     iter_lines file (fun line ->
       match Lex_driver.run_line line with
       | Some out -> print_endline out
@@ -20,5 +20,8 @@ let () =
         | None ->
           match Parse_driver.run_line line with
           | Some out -> print_endline out
-          | None -> print_endline "(unsupported-case)")
+          | None ->
+            match Render_driver.run_line line with
+            | Some out -> print_endline out
+            | None -> print_endline "(unsupported-case)")
   | _ -> prerr_endline "usage: driver (--alphabet | span FILE | parse FILE)"; exit 2
